@@ -81,7 +81,7 @@ pub fn check(c: &Case2, st: &mut Stats, cfg: &Cfg, bin: &std::path::Path, hv: &s
     let has_effect = !m.out.is_empty() || !m.err.is_empty() || matches!(m.end, End::Stop(Stop::Exit(_)));
     let optimiser_active = stacks_above3.len() >= 2 || m.steps > 1;
     match m.end {
-        End::Stop(Stop::Unspecified) | End::Stop(Stop::TooBig) => {
+        End::Stop(Stop::Unspecified) | End::Stop(Stop::TooBig) | End::Stop(Stop::InputError) => {
             st.exclude("model cut (unspecified output / size cap)");
             return Ok(());
         }
